@@ -23,16 +23,16 @@ TraceInit == l = 1 /\ FInit
 IsEvent(e) == l <= Len(Trace) /\ Trace[l].ev = e /\ l' = l + 1
 T == Trace[l]
 
+Refused(what) == Print(<<"@@REFUSED", l, what>>, TRUE)
 TWorld == IsEvent("World") /\ NewWorld([types |-> T.types, ents |-> T.ents, roots |-> T.roots, services |-> T.services])
           \* a World line also aborts a run that was cut short by a start failure
 TReq   == IsEvent("Req") /\ Request(T.op)
 TMono  == IsEvent("Mono") /\ phase = "running"
           /\ (IF T.data = Ref(W, op) THEN TRUE ELSE Print(<<"@@MONO-MISMATCH", l>>, TRUE))
           /\ UNCHANGED fvars
-TPlan  == IsEvent("Plan") /\ PlanSeen(T.levels)
+TPlan  == IsEvent("Plan") /\ (IF E("C02") => PlanOK(T) THEN TRUE ELSE Refused("")) /\ PlanSeen(T.levels)
 (* A line the contract refuses is REPORTED (with what Ref expects) and the trace goes on, so that  *)
 (* one pass examines every operation; the trace is accepted iff no line was refused.               *)
-Refused(what) == Print(<<"@@REFUSED", l, what>>, TRUE)
 TCall  == IsEvent("Call") /\ (IF CallOK(T) THEN TRUE ELSE Refused("")) /\ CallEff(T)
 TResp  == IsEvent("Resp") /\ (IF RespOK(T) THEN TRUE ELSE Refused(ToJson(Norm(Ref(W, op))))) /\ RespondEff(T)
 TFault == IsEvent("Fault") /\ phase = "running" /\ faults' = faults \cup {T.kind} /\ UNCHANGED <<W, op, phase, levels, calls, mroots>>
